@@ -241,6 +241,40 @@ def normalise(parsed: List[Tuple[str, ast.Module, bool]]) -> Dict[str, List[str]
                     consts.setdefault(module, {})[n] = v
                     log.setdefault(module, []).append(f"{module}:{n} = constant expression (folded)")
     meth_renames = {k: v for k, v in meth_renames.items() if v != "\0"}
+    # ---- new private class-level literal constants (`_IV_SIZE = 96` in a class body, read as self._IV_SIZE / cls._IV_SIZE / Class._IV_SIZE): folded when the
+    # attribute name is bound exactly once in the whole package (no subclass can give it another value, nothing stores to it)
+    attr_binds: Dict[str, int] = {}
+    for module, tree, _k in parsed:
+        for x in ast.walk(tree):
+            if isinstance(x, ast.ClassDef):
+                for st in x.body:
+                    tg = st.targets[0] if isinstance(st, ast.Assign) and len(st.targets) == 1 else (st.target if isinstance(st, ast.AnnAssign) else None)
+                    if isinstance(tg, ast.Name):
+                        attr_binds[tg.id] = attr_binds.get(tg.id, 0) + 1
+            elif isinstance(x, ast.Attribute) and isinstance(x.ctx, (ast.Store, ast.Del)):
+                attr_binds[x.attr] = attr_binds.get(x.attr, 0) + 1
+            elif isinstance(x, ast.Call) and isinstance(x.func, ast.Name) and x.func.id in ("setattr", "delattr") and len(x.args) >= 2 and isinstance(x.args[1], ast.Constant):
+                attr_binds[str(x.args[1].value)] = attr_binds.get(str(x.args[1].value), 0) + 1
+    class_consts: Dict[str, ast.AST] = {}
+    for module, tree, _k in parsed:
+        for c in ast.walk(tree):
+            if isinstance(c, ast.ClassDef):
+                for st in c.body:
+                    tg = st.targets[0] if isinstance(st, ast.Assign) and len(st.targets) == 1 else (st.target if isinstance(st, ast.AnnAssign) else None)
+                    v = getattr(st, "value", None)
+                    if isinstance(tg, ast.Name) and tg.id.startswith("_") and not tg.id.startswith("__") and v is not None and _literal(v) \
+                            and f"{module}:{c.name}.{tg.id}" not in ref_g and attr_binds.get(tg.id) == 1:
+                        class_consts[tg.id] = v
+                        log.setdefault(module, []).append(f"{module}:{c.name}.{tg.id} = literal (folded)")
+    if class_consts:
+        for module, tree, _k in parsed:
+            class RC(ast.NodeTransformer):
+                def visit_Attribute(self, n: ast.Attribute):
+                    self.generic_visit(n)
+                    if n.attr in class_consts and isinstance(n.ctx, ast.Load) and isinstance(n.value, ast.Name):
+                        return ast.copy_location(copy.deepcopy(class_consts[n.attr]), n)
+                    return n
+            RC().visit(tree)
 
     # ---- apply
     def abs_from(module: str, is_pkg: bool, node: ast.ImportFrom) -> Optional[str]:
